@@ -15,7 +15,8 @@ EXPLANATION = ("CRC-gate typestate decided from MIR: (R1) every Reader::cut_chec
                "assert_slice_crc on the buffer (or is unreachable!()); (R3) assert_slice_crc compares the digest of buf[..len-4] "
                "with the big-endian u32 at the end and returns Err(CorruptedFile) when they differ, CRC parameters equal the "
                "reference; (R4) every Serializer::new passes Crc32 and the checksum is written after the data. Semantic validation "
-               "behind a valid CRC (forged files) is outside the property and not decided.")
+               "behind a valid CRC (forged files) is outside the property and not decided."
+               " (R6) = C04-R2/R3 under this property; (R7) errors reach the caller (= C06-R7, Result-as-iterator adapters included).")
 ASSUMPTIONS = ["CRC-32C detects the alterations of the quantifier (storage damage, not adversarial re-checksumming)", "64-bit target (move_to_memory is the constant true)",
                "rustc MIR construction and trait resolution"]
 
